@@ -378,7 +378,9 @@ HOM_EXPR = [
     ("$s._source", "({s}).source"),
     ("$s._target", "({s}).target"),
     ("$s.__class__.__new__($s.__class__)", "(HT.blank ({s}).cls : " + HT + ")"),
-    ("$s.__class__($m, copy=False, skip_checks=True)", "ctor_dyn_FT ({s}).cls {m}", "bind"),
+    # `copy=` of a freshly computed inverse matrix is immaterial at value level (the translation does not see aliasing)
+    ("$s.__class__($m, copy=$c, skip_checks=True)", "ctor_dyn_FT ({s}).cls {m}", "bind"),
+    ("$s.__class__($m, skip_checks=True)", "ctor_dyn_FT ({s}).cls {m}", "bind"),
     ("Translation($t, skip_checks=True)", "ctor_Translation_T {t}", "bind"),
     ("UniformScale($x, $n, skip_checks=True)", "ctor_UniformScale_T {x} {n}", "bind"),
     ("NonUniformScale($v, skip_checks=True)", "ctor_NonUniformScale_T {v}", "bind"),
